@@ -109,7 +109,8 @@ Theorem base_is_own_value_invariant :
 Proof. exact @inv_rl_hp_mutation. Qed.
 Print Assumptions base_is_own_value_invariant.
 
-(* ... and therefore every history of mutation rounds, single mutations and clones, on every population *)
+(* ... and therefore every history of mutation rounds, single mutations, clones, other mutation kinds, learn steps
+   and checkpoint save/load (in place and as a new member), on every population *)
 Theorem invariant_over_histories :
   forall (T : Type) (O : numops T) (ops : list (pop_op T)) (pop : list (agent T)),
   Forall Inv pop -> Forall Inv (pop_run O pop ops).
@@ -142,11 +143,29 @@ Print Assumptions property_after_any_history.
 Theorem other_mutations_keep_learning_rates :
   forall (T : Type) (a : agent T) (j : nat) (o : optim T),
   Inv a -> nth_error (a_opts a) j = Some o ->
-  exists o', nth_error (a_opts (other_mutation a)) j = Some o' /\
-             o_wlr o' = o_wlr o /\ Forall (fun g => g = o_wlr o) (o_groups o') /\
+  exists o' v, nth_error (a_opts (other_mutation a)) j = Some o' /\
+             getv (a_vals a) (o_lr_name o) = Some v /\
+             Forall (fun g => g = v) (o_groups o) /\ Forall (fun g => g = v) (o_groups o') /\
              length (o_groups o') = length (o_groups o) /\ a_vals (other_mutation a) = a_vals a.
 Proof. exact @other_mutation_keeps_lrs. Qed.
 Print Assumptions other_mutations_keep_learning_rates.
+
+(* Restoring a checkpoint — in place over ANY loader, or as a new member — yields an individual with the SAVED
+   individual's attributes, label, cached hyperparameter values and optimizer param-group learning rates, and
+   the invariant holds for it: the next mutation starts from the restored value, not from the loader's. *)
+Theorem load_restores_saved_state :
+  forall (T : Type) (src dst : agent T),
+  a_vals (loaded_into src dst) = a_vals src /\ a_hps (loaded_into src dst) = a_hps src /\
+  a_mut (loaded_into src dst) = a_mut src /\
+  map (@o_groups T) (a_opts (loaded_into src dst)) = map (@o_groups T) (a_opts src) /\
+  map (@o_lr_name T) (a_opts (loaded_into src dst)) = map (@o_lr_name T) (a_opts src).
+Proof. exact @loaded_into_state. Qed.
+Print Assumptions load_restores_saved_state.
+
+Theorem load_preserves_invariant :
+  forall (T : Type) (src dst : agent T), Inv src -> Inv (loaded_into src dst).
+Proof. exact @inv_loaded_into. Qed.
+Print Assumptions load_preserves_invariant.
 
 (* _registry_init accepts a configuration exactly when every configured name is an attribute of the agent *)
 Theorem registry_init_guard :
@@ -232,7 +251,7 @@ Example td3_like_inv : Inv td3_like.
 Proof.
   apply fresh_population_invariant; [reflexivity| |].
   - intros h [<-|[]]; reflexivity.
-  - intros o [<-|[<-|[<-|[]]]]; eexists; (split; [reflexivity|split; [reflexivity|repeat constructor]]).
+  - intros o [<-|[<-|[<-|[]]]]; eexists; (split; [reflexivity|repeat constructor]).
 Qed.
 Example td3_like_all_follow :
   let a' := rl_hp_mutation QOps td3_like 0 (3 # 4) in
